@@ -8,6 +8,7 @@ import (
 	"fmt"
 	"io"
 	"os"
+	"os/exec"
 	"path/filepath"
 	"strings"
 	"testing"
@@ -16,12 +17,13 @@ import (
 	"dsim/core"
 	"dsim/simos"
 
-	"github.com/dolthub/dolt/go/store/util/tempfiles"
 	"github.com/dolthub/dolt/go/store/blobstore"
 	"github.com/dolthub/dolt/go/store/chunks"
 	"github.com/dolthub/dolt/go/store/constants"
 	"github.com/dolthub/dolt/go/store/hash"
 	"github.com/dolthub/dolt/go/store/nbs"
+	"github.com/dolthub/dolt/go/store/testutils/gitrepo"
+	"github.com/dolthub/dolt/go/store/util/tempfiles"
 )
 
 // C42 — blobstores provide a correct conditional manifest update and byte ranges.
@@ -55,6 +57,15 @@ func (C42) Generate(seed uint64, tier string) *core.Scenario {
 	b.Backend = []string{"local", "local", "inmem"}[r.Intn(3)]
 	b.NTasks = r.Range(2, 4)
 	b.Iters = r.Range(2, 4)
+	gitOneIn := 16 // every git call is a subprocess: few of these runs in the quick tier
+	if tier == "thorough" {
+		gitOneIn = 7
+	}
+	if r.Chance(1, gitOneIn) {
+		// the git-backed blobstore: independent clients (own local repository each) of one bare
+		// remote, interleaved at the granularity of git subprocesses
+		b.Part, b.Backend, b.NTasks, b.Iters = "blob", "git", r.Range(2, 3), r.Range(2, 3)
+	}
 	b.MemTable = uint64([]int{1 << 10, 64 << 10}[r.Intn(2)])
 	for _, o := range []string{"rename", "open", "stat", "create", "write", "read", "remove"} {
 		if r.Chance(1, 2) {
@@ -157,13 +168,58 @@ func (C42) Execute(t *testing.T, sc *core.Scenario) *core.Result {
 	if b.Backend == "inmem" {
 		sharedMem = blobstore.NewInMemoryBlobstore("mem")
 	}
+	nGit := 0
+	if b.Backend == "git" {
+		// real git subprocesses on real directories below the scratch root (they are not part of the
+		// simulated file system); what the simulator owns is who runs the next subprocess
+		if _, err := exec.LookPath("git"); err != nil {
+			res.Probe("git_not_installed")
+			res.Trivial = 1
+			res.Evaluations = 1
+			res.LogHash = "no-git"
+			return res
+		}
+		if _, err := gitrepo.InitBare(ctx, filepath.Join(root, "remote.git")); err != nil {
+			res.Panic = "git init: " + err.Error()
+			return res
+		}
+		blobstore.DsimSetGitYield(func(sub string) {
+			switch sub {
+			case "fetch", "push", "update-ref", "commit-tree", "write-tree":
+				s.YieldHere("git:" + sub)
+			}
+		})
+		defer blobstore.DsimSetGitYield(nil)
+	}
 	newBS := func() blobstore.Blobstore {
 		if b.Backend == "inmem" {
 			return yieldingBlobstore{sharedMem, s}
 		}
+		if b.Backend == "git" {
+			nGit++
+			local, err := gitrepo.InitBare(ctx, filepath.Join(root, fmt.Sprintf("client%d.git", nGit)))
+			if err == nil {
+				cmd := exec.CommandContext(ctx, "git", "--git-dir", local.GitDir, "remote", "add", "origin", filepath.Join(root, "remote.git"))
+				if out, cerr := cmd.CombinedOutput(); cerr != nil {
+					err = fmt.Errorf("git remote add: %v: %s", cerr, out)
+				}
+			}
+			var gbs *blobstore.GitBlobstore
+			if err == nil {
+				// a negative TTL switches the read-side fetch de-duplication off: within the window a Get
+				// may by design return what an earlier fetch saw, and the simulated clock does not move
+				gbs, err = blobstore.NewGitBlobstoreWithOptions(local.GitDir, blobstore.DoltDataRef, blobstore.GitBlobstoreOptions{RemoteName: "origin", SyncForReadTTL: -1})
+			}
+			if err != nil {
+				res.Panic = "git client: " + err.Error()
+				return blobstore.NewInMemoryBlobstore("unused")
+			}
+			return gbs
+		}
 		return blobstore.NewLocalBlobstore(dir)
 	}
 
+	res.Probe("backend:" + b.Backend)
 	if b.Part == "stack" {
 		return c42Stack(ctx, sc, &b, s, sos, newBS, res)
 	}
@@ -211,6 +267,10 @@ func (C42) Execute(t *testing.T, sc *core.Scenario) *core.Result {
 					res.Fault("cas-contention")
 				default:
 					res.Probe("cas_error:" + firstLine(err)[:min(40, len(firstLine(err)))])
+				}
+				if b.Backend == "git" {
+					res.Evaluations++
+					continue // non-manifest writes are deferred to the next manifest update there
 				}
 				// ride-along: a blob, ranges of it, a concatenation
 				key := fmt.Sprintf("blob-%d-%d", id, it)
